@@ -127,11 +127,16 @@ pub proof fn f2_lemma_mul_assoc(a: Seq<int>, b: Seq<int>, c: Seq<int>) requires 
     f2_of_mul(b0, b1, c0, c1);
     let n0 = b0 * c0 - 2 * (b1 * c1); let n1 = b0 * c1 + b1 * c0;
     f2_of_mul(a0, a1, n0, n1);
-    assert(m0 * c0 - 2 * (m1 * c1) == a0 * n0 - 2 * (a1 * n1)) by(nonlinear_arith)
-        requires m0 == a0 * b0 - 2 * (a1 * b1), m1 == a0 * b1 + a1 * b0, n0 == b0 * c0 - 2 * (b1 * c1), n1 == b0 * c1 + b1 * c0;
-    assert(m0 * c1 + m1 * c0 == a0 * n1 + a1 * n0) by(nonlinear_arith)
-        requires m0 == a0 * b0 - 2 * (a1 * b1), m1 == a0 * b1 + a1 * b0, n0 == b0 * c0 - 2 * (b1 * c1), n1 == b0 * c1 + b1 * c0;
+    ring_f2_assoc0(a0, a1, b0, b1, c0, c1); ring_f2_assoc1(a0, a1, b0, b1, c0, c1);
 }
+#[verifier::external_body]
+pub proof fn ring_f2_assoc0(a0: int, a1: int, b0: int, b1: int, c0: int, c1: int)
+    ensures (a0 * b0 - 2 * (a1 * b1)) * c0 - 2 * ((a0 * b1 + a1 * b0) * c1) == a0 * (b0 * c0 - 2 * (b1 * c1)) - 2 * (a1 * (b0 * c1 + b1 * c0))
+{ }
+#[verifier::external_body]
+pub proof fn ring_f2_assoc1(a0: int, a1: int, b0: int, b1: int, c0: int, c1: int)
+    ensures (a0 * b0 - 2 * (a1 * b1)) * c1 + (a0 * b1 + a1 * b0) * c0 == a0 * (b0 * c1 + b1 * c0) + a1 * (b0 * c0 - 2 * (b1 * c1))
+{ }
 pub proof fn f2_lemma_distrib(a: Seq<int>, b: Seq<int>, c: Seq<int>) requires f2_ok(a), f2_ok(b), f2_ok(c)
     ensures f2_mul(f2_add(a, b), c) == f2_add(f2_mul(a, c), f2_mul(b, c)), f2_mul(c, f2_add(a, b)) == f2_add(f2_mul(c, a), f2_mul(c, b)),
         f2_mul(f2_sub(a, b), c) == f2_sub(f2_mul(a, c), f2_mul(b, c)),
@@ -217,13 +222,16 @@ pub proof fn f2_lemma_karatsuba(a0: Seq<int>, a1: Seq<int>, b0: Seq<int>, b1: Se
     f2_of_mul(x2, x3, y0, y1);
     let k0 = x2 * y0 - 2 * (x3 * y1); let k1 = x2 * y1 + x3 * y0;
     f2_of_add(h0, h1, k0, k1);
-    assert(m0 - e0 - g0 == h0 + k0) by(nonlinear_arith)
-        requires m0 == (y0 + y2) * (x0 + x2) - 2 * ((y1 + y3) * (x1 + x3)), e0 == x0 * y0 - 2 * (x1 * y1), g0 == x2 * y2 - 2 * (x3 * y3),
-            h0 == x0 * y2 - 2 * (x1 * y3), k0 == x2 * y0 - 2 * (x3 * y1);
-    assert(m1 - e1 - g1 == h1 + k1) by(nonlinear_arith)
-        requires m1 == (y0 + y2) * (x1 + x3) + (y1 + y3) * (x0 + x2), e1 == x0 * y1 + x1 * y0, g1 == x2 * y3 + x3 * y2,
-            h1 == x0 * y3 + x1 * y2, k1 == x2 * y1 + x3 * y0;
+    ring_f2_kara0(x0, x1, x2, x3, y0, y1, y2, y3); ring_f2_kara1(x0, x1, x2, x3, y0, y1, y2, y3);
 }
+#[verifier::external_body]
+pub proof fn ring_f2_kara0(x0: int, x1: int, x2: int, x3: int, y0: int, y1: int, y2: int, y3: int)
+    ensures ((y0 + y2) * (x0 + x2) - 2 * ((y1 + y3) * (x1 + x3))) - (x0 * y0 - 2 * (x1 * y1)) - (x2 * y2 - 2 * (x3 * y3)) == (x0 * y2 - 2 * (x1 * y3)) + (x2 * y0 - 2 * (x3 * y1))
+{ }
+#[verifier::external_body]
+pub proof fn ring_f2_kara1(x0: int, x1: int, x2: int, x3: int, y0: int, y1: int, y2: int, y3: int)
+    ensures ((y0 + y2) * (x1 + x3) + (y1 + y3) * (x0 + x2)) - (x0 * y1 + x1 * y0) - (x2 * y3 + x3 * y2) == (x0 * y3 + x1 * y2) + (x2 * y1 + x3 * y0)
+{ }
 // ---------------------------------------------------------------- Fp4: range, units, the formulas of the code
 pub proof fn f4_lemma_ok_mk(x: Seq<int>, y: Seq<int>) requires f2_ok(x), f2_ok(y) ensures f4_ok(f4_mk(x, y)), f4_lo(f4_mk(x, y)) == x, f4_hi(f4_mk(x, y)) == y
 { f4_split(x, y); }
@@ -276,6 +284,277 @@ pub proof fn f4_lemma_scale(a: Seq<int>, k: int) requires f4_ok(a), 0 <= k < P9(
     f4_lemma_scale2(a, f2_fp(k));
     f2_lemma_scale(f4_lo(a), k); f2_lemma_scale(f4_hi(a), k);
 }
+pub proof fn f4_lemma_mk_inj(x: Seq<int>, y: Seq<int>, x2: Seq<int>, y2: Seq<int>) requires x.len() == 2, y.len() == 2, x2.len() == 2, y2.len() == 2
+    ensures (f4_mk(x, y) == f4_mk(x2, y2)) == (x == x2 && y == y2)
+{ f4_split(x, y); f4_split(x2, y2); }
+// a * b * v = (a0 b1 + a1 b0) u + (a0 b0 + a1 b1 u) v, the first coefficient as the code computes it
+pub proof fn f4_lemma_mul_mul_v(a: Seq<int>, b: Seq<int>) requires f4_ok(a), f4_ok(b)
+    ensures f4_mul(f4_mul(a, b), f4_v()) == f4_mk(f2_add(f2_mul(f2_mul(f4_lo(a), f4_hi(b)), f2_u()), f2_mul(f2_mul(f4_hi(a), f4_lo(b)), f2_u())),
+                                                 f2_add(f2_mul(f4_lo(a), f4_lo(b)), f2_mul(f2_mul(f4_hi(a), f4_hi(b)), f2_u())))
+{
+    let a0 = f4_lo(a); let a1 = f4_hi(a); let b0 = f4_lo(b); let b1 = f4_hi(b);
+    f4_lemma_ok_ops(a, b);
+    f4_lemma_mul_v(f4_mul(a, b));
+    f2_lemma_ok_ops(a0, b0); f2_lemma_ok_ops(a1, b1); f2_lemma_ok_ops(a0, b1); f2_lemma_ok_ops(a1, b0);
+    f2_lemma_ok_ops(f2_mul(a1, b1), f2_u());
+    f2_lemma_ok_ops(f2_mul(a0, b0), f2_mul(f2_mul(a1, b1), f2_u()));
+    f2_lemma_ok_ops(f2_mul(a0, b1), f2_mul(a1, b0));
+    f4_split(f2_add(f2_mul(a0, b0), f2_mul(f2_mul(a1, b1), f2_u())), f2_add(f2_mul(a0, b1), f2_mul(a1, b0)));
+    f2_lemma_distrib(f2_mul(a0, b1), f2_mul(a1, b0), f2_u());
+}
+// fp_inv as the code computes it: k = (a1^2 u - a0^2)^-1 = -(norm^-1), r0 = -(a0 k), r1 = a1 k
+pub proof fn f4_lemma_inv_code(a0: Seq<int>, a1: Seq<int>) requires f2_ok(a0), f2_ok(a1)
+    ensures ({
+        let k = f2_inv(f2_sub(f2_mul(f2_mul(a1, a1), f2_u()), f2_mul(a0, a0)));
+        let ni = f2_inv(f2_sub(f2_mul(a0, a0), f2_mul(f2_mul(a1, a1), f2_u())));
+        f2_neg(f2_mul(a0, k)) == f2_mul(a0, ni) && f2_mul(a1, k) == f2_mul(f2_neg(a1), ni)
+    })
+{
+    let x = f2_mul(f2_mul(a1, a1), f2_u()); let y = f2_mul(a0, a0);
+    f2_lemma_ok_ops(a1, a1); f2_lemma_ok_ops(f2_mul(a1, a1), f2_u()); f2_lemma_ok_ops(a0, a0);
+    let n = f2_sub(y, x); let ni = f2_inv(n);
+    f2_lemma_ok_ops(y, x); f2_lemma_ok_ops(n, n);
+    f2_lemma_sub_neg(x, y);
+    f2_lemma_inv_neg(n);
+    f2_lemma_mul_neg(a0, ni); f2_lemma_mul_neg(a1, ni);
+    f2_lemma_ok_ops(a0, ni);
+    f2_lemma_sub_neg(f2_mul(a0, ni), f2_mul(a0, ni));
+}
+// ---------------------------------------------------------------- Z^4 -> Fp4, a ring homomorphism (Z[u, v]/(u^2 + 2, v^2 - u) reduced mod p)
+pub open spec fn f4_of(p0: int, p1: int, p2: int, p3: int) -> Seq<int> { f4_mk(f2_of(p0, p1), f2_of(p2, p3)) }
+pub proof fn f4_of_ok(p0: int, p1: int, p2: int, p3: int)
+    ensures f4_ok(f4_of(p0, p1, p2, p3)), f4_lo(f4_of(p0, p1, p2, p3)) == f2_of(p0, p1), f4_hi(f4_of(p0, p1, p2, p3)) == f2_of(p2, p3)
+{ f2_of_ok(p0, p1); f2_of_ok(p2, p3); f4_lemma_ok_mk(f2_of(p0, p1), f2_of(p2, p3)); }
+pub proof fn f4_of_self(a: Seq<int>) requires f4_ok(a) ensures a == f4_of(a[0], a[1], a[2], a[3])
+{ f4_join(a); f2_of_self(f4_lo(a)); f2_of_self(f4_hi(a)); }
+pub proof fn f4_of_eq(p0: int, p1: int, p2: int, p3: int, q0: int, q1: int, q2: int, q3: int)
+    requires p0 % P9() == q0 % P9(), p1 % P9() == q1 % P9(), p2 % P9() == q2 % P9(), p3 % P9() == q3 % P9()
+    ensures f4_of(p0, p1, p2, p3) == f4_of(q0, q1, q2, q3)
+{ }
+pub proof fn f4_of_add(p0: int, p1: int, p2: int, p3: int, q0: int, q1: int, q2: int, q3: int)
+    ensures f4_add(f4_of(p0, p1, p2, p3), f4_of(q0, q1, q2, q3)) == f4_of(p0 + q0, p1 + q1, p2 + q2, p3 + q3)
+{ f4_of_ok(p0, p1, p2, p3); f4_of_ok(q0, q1, q2, q3); f2_of_add(p0, p1, q0, q1); f2_of_add(p2, p3, q2, q3); }
+pub proof fn f4_of_sub(p0: int, p1: int, p2: int, p3: int, q0: int, q1: int, q2: int, q3: int)
+    ensures f4_sub(f4_of(p0, p1, p2, p3), f4_of(q0, q1, q2, q3)) == f4_of(p0 - q0, p1 - q1, p2 - q2, p3 - q3)
+{ f4_of_ok(p0, p1, p2, p3); f4_of_ok(q0, q1, q2, q3); f2_of_sub(p0, p1, q0, q1); f2_of_sub(p2, p3, q2, q3); }
+pub proof fn f4_of_neg(p0: int, p1: int, p2: int, p3: int)
+    ensures f4_neg(f4_of(p0, p1, p2, p3)) == f4_of(0 - p0, 0 - p1, 0 - p2, 0 - p3)
+{ f4_of_ok(p0, p1, p2, p3); f2_of_neg(p0, p1); f2_of_neg(p2, p3); }
+// (p0 + p1 u + (p2 + p3 u) v)(q0 + q1 u + (q2 + q3 u) v) with u^2 = -2, v^2 = u
+pub proof fn f4_of_mul(p0: int, p1: int, p2: int, p3: int, q0: int, q1: int, q2: int, q3: int)
+    ensures f4_mul(f4_of(p0, p1, p2, p3), f4_of(q0, q1, q2, q3)) == f4_of(
+        p0 * q0 - 2 * (p1 * q1) - 2 * (p2 * q3 + p3 * q2),
+        p0 * q1 + p1 * q0 + p2 * q2 - 2 * (p3 * q3),
+        p0 * q2 - 2 * (p1 * q3) + p2 * q0 - 2 * (p3 * q1),
+        p0 * q3 + p1 * q2 + p2 * q1 + p3 * q0)
+{
+    f4_of_ok(p0, p1, p2, p3); f4_of_ok(q0, q1, q2, q3);
+    f2_of_mul(p0, p1, q0, q1);
+    f2_of_mul(p2, p3, q2, q3);
+    f2_of_mul_u(p2 * q2 - 2 * (p3 * q3), p2 * q3 + p3 * q2);
+    f2_of_add(p0 * q0 - 2 * (p1 * q1), p0 * q1 + p1 * q0, 0 - 2 * (p2 * q3 + p3 * q2), p2 * q2 - 2 * (p3 * q3));
+    f2_of_mul(p0, p1, q2, q3);
+    f2_of_mul(p2, p3, q0, q1);
+    f2_of_add(p0 * q2 - 2 * (p1 * q3), p0 * q3 + p1 * q2, p2 * q0 - 2 * (p3 * q1), p2 * q1 + p3 * q0);
+}
+pub proof fn f4_of_mul_v(p0: int, p1: int, p2: int, p3: int)
+    ensures f4_mul(f4_of(p0, p1, p2, p3), f4_v()) == f4_of(0 - 2 * p3, p2, p0, p1)
+{
+    f4_of_ok(p0, p1, p2, p3);
+    f4_lemma_mul_v(f4_of(p0, p1, p2, p3));
+    f2_of_mul_u(p2, p3);
+}
+pub proof fn f4_of_consts() ensures f4_zero() == f4_of(0, 0, 0, 0), f4_one() == f4_of(1, 0, 0, 0), f4_v() == f4_of(0, 0, 1, 0)
+{ f2_of_consts(); }
+pub proof fn f4_of_fp2(k0: int, k1: int) ensures f4_fp2(f2_of(k0, k1)) == f4_of(k0, k1, 0, 0)
+{ f2_of_consts(); }
+// ---------------------------------------------------------------- Fp4 is a commutative ring
+pub proof fn f4_lemma_add_comm(a: Seq<int>, b: Seq<int>) ensures f4_add(a, b) == f4_add(b, a)
+{ f2_lemma_add_comm(f4_lo(a), f4_lo(b)); f2_lemma_add_comm(f4_hi(a), f4_hi(b)); }
+pub proof fn f4_lemma_mul_comm(a: Seq<int>, b: Seq<int>) ensures f4_mul(a, b) == f4_mul(b, a)
+{
+    let a0 = f4_lo(a); let a1 = f4_hi(a); let b0 = f4_lo(b); let b1 = f4_hi(b);
+    f2_lemma_mul_comm(a0, b0); f2_lemma_mul_comm(a1, b1); f2_lemma_mul_comm(a0, b1); f2_lemma_mul_comm(a1, b0);
+    f2_lemma_add_comm(f2_mul(a0, b1), f2_mul(a1, b0));
+}
+pub proof fn f4_lemma_add_assoc(a: Seq<int>, b: Seq<int>, c: Seq<int>) requires f4_ok(a), f4_ok(b), f4_ok(c)
+    ensures f4_add(f4_add(a, b), c) == f4_add(a, f4_add(b, c))
+{
+    f2_lemma_add_assoc(f4_lo(a), f4_lo(b), f4_lo(c)); f2_lemma_add_assoc(f4_hi(a), f4_hi(b), f4_hi(c));
+    f4_split(f2_add(f4_lo(a), f4_lo(b)), f2_add(f4_hi(a), f4_hi(b)));
+    f4_split(f2_add(f4_lo(b), f4_lo(c)), f2_add(f4_hi(b), f4_hi(c)));
+}
+pub proof fn f4_lemma_add_zero(a: Seq<int>) requires f4_ok(a) ensures f4_add(a, f4_zero()) == a, f4_add(f4_zero(), a) == a
+{
+    f4_split(f2_zero(), f2_zero()); f4_join(a);
+    f2_lemma_add_zero(f4_lo(a)); f2_lemma_add_zero(f4_hi(a));
+    f4_lemma_add_comm(a, f4_zero());
+}
+pub proof fn f4_lemma_sub_neg(a: Seq<int>, b: Seq<int>) requires f4_ok(a), f4_ok(b)
+    ensures f4_sub(a, b) == f4_add(a, f4_neg(b)), f4_sub(a, b) == f4_neg(f4_sub(b, a)), f4_sub(a, a) == f4_zero(), f4_neg(f4_neg(a)) == a,
+        f4_add(f4_sub(a, b), b) == a
+{
+    f2_lemma_sub_neg(f4_lo(a), f4_lo(b)); f2_lemma_sub_neg(f4_hi(a), f4_hi(b));
+    f4_split(f2_neg(f4_lo(b)), f2_neg(f4_hi(b)));
+    f4_split(f2_neg(f4_lo(a)), f2_neg(f4_hi(a)));
+    f4_split(f2_sub(f4_lo(b), f4_lo(a)), f2_sub(f4_hi(b), f4_hi(a)));
+    f4_split(f2_sub(f4_lo(a), f4_lo(b)), f2_sub(f4_hi(a), f4_hi(b)));
+    f4_join(a);
+}
+pub proof fn f4_lemma_mul_one(a: Seq<int>) requires f4_ok(a) ensures f4_mul(a, f4_one()) == a, f4_mul(f4_one(), a) == a
+{
+    let a0 = f4_lo(a); let a1 = f4_hi(a);
+    f4_split(f2_one(), f2_zero()); f4_join(a);
+    f2_lemma_mul_one(a0); f2_lemma_mul_one(a1); f2_lemma_mul_zero(a0); f2_lemma_mul_zero(a1); f2_lemma_mul_zero(f2_u());
+    f2_lemma_add_zero(a0);
+    f2_lemma_add_comm(f2_zero(), a1); f2_lemma_add_zero(a1);
+    f4_lemma_mul_comm(a, f4_one());
+}
+pub proof fn f4_lemma_mul_zero(a: Seq<int>) ensures f4_mul(a, f4_zero()) == f4_zero(), f4_mul(f4_zero(), a) == f4_zero()
+{
+    let a0 = f4_lo(a); let a1 = f4_hi(a);
+    f4_split(f2_zero(), f2_zero());
+    f2_lemma_mul_zero(a0); f2_lemma_mul_zero(a1); f2_lemma_mul_zero(f2_u());
+    f2_lemma_ok_ops(a0, a0); f2_lemma_add_zero(f2_zero());
+    f4_lemma_mul_comm(a, f4_zero());
+}
+pub proof fn f4_lemma_mul_neg(a: Seq<int>, b: Seq<int>) requires f4_ok(a), f4_ok(b)
+    ensures f4_mul(f4_neg(a), b) == f4_neg(f4_mul(a, b)), f4_mul(a, f4_neg(b)) == f4_neg(f4_mul(a, b))
+{
+    f4_of_self(a); f4_of_self(b);
+    let a0 = a[0]; let a1 = a[1]; let a2 = a[2]; let a3 = a[3]; let b0 = b[0]; let b1 = b[1]; let b2 = b[2]; let b3 = b[3];
+    f4_of_neg(a0, a1, a2, a3);
+    f4_of_mul(a0, a1, a2, a3, b0, b1, b2, b3);
+    f4_of_mul(0 - a0, 0 - a1, 0 - a2, 0 - a3, b0, b1, b2, b3);
+    f4_of_neg(a0 * b0 - 2 * (a1 * b1) - 2 * (a2 * b3 + a3 * b2), a0 * b1 + a1 * b0 + a2 * b2 - 2 * (a3 * b3),
+              a0 * b2 - 2 * (a1 * b3) + a2 * b0 - 2 * (a3 * b1), a0 * b3 + a1 * b2 + a2 * b1 + a3 * b0);
+    f4_nm(a0, b0); f4_nm(a0, b1); f4_nm(a0, b2); f4_nm(a0, b3); f4_nm(a1, b0); f4_nm(a1, b1); f4_nm(a1, b2); f4_nm(a1, b3);
+    f4_nm(a2, b0); f4_nm(a2, b1); f4_nm(a2, b2); f4_nm(a2, b3); f4_nm(a3, b0); f4_nm(a3, b1); f4_nm(a3, b2); f4_nm(a3, b3);
+    f4_lemma_ok_ops(a, b);
+    f4_lemma_mul_comm(a, f4_neg(b)); f4_lemma_mul_comm(a, b);
+    // the second equation by commutativity from the first, with the roles exchanged
+    f4_of_neg(b0, b1, b2, b3);
+    f4_of_mul(b0, b1, b2, b3, a0, a1, a2, a3);
+    f4_of_mul(0 - b0, 0 - b1, 0 - b2, 0 - b3, a0, a1, a2, a3);
+    f4_of_neg(b0 * a0 - 2 * (b1 * a1) - 2 * (b2 * a3 + b3 * a2), b0 * a1 + b1 * a0 + b2 * a2 - 2 * (b3 * a3),
+              b0 * a2 - 2 * (b1 * a3) + b2 * a0 - 2 * (b3 * a1), b0 * a3 + b1 * a2 + b2 * a1 + b3 * a0);
+    f4_nm(b0, a0); f4_nm(b0, a1); f4_nm(b0, a2); f4_nm(b0, a3); f4_nm(b1, a0); f4_nm(b1, a1); f4_nm(b1, a2); f4_nm(b1, a3);
+    f4_nm(b2, a0); f4_nm(b2, a1); f4_nm(b2, a2); f4_nm(b2, a3); f4_nm(b3, a0); f4_nm(b3, a1); f4_nm(b3, a2); f4_nm(b3, a3);
+    f4_lemma_mul_comm(f4_neg(b), a); f4_lemma_mul_comm(b, a);
+}
+pub proof fn f4_nm(x: int, y: int) ensures (0 - x) * y == 0 - x * y
+{ assert((0 - x) * y == 0 - x * y) by(nonlinear_arith); }
+// f4_inv is the multiplicative inverse wherever the norm (an element of Fp2) is invertible
+pub proof fn f4_lemma_inv(a: Seq<int>) requires f4_ok(a), f2_norm(f4_norm(a)) % P9() != 0 ensures f4_mul(a, f4_inv(a)) == f4_one()
+{
+    let a0 = f4_lo(a); let a1 = f4_hi(a); let u = f2_u();
+    let y = f2_mul(a0, a0); let s = f2_mul(a1, a1); let x = f2_mul(s, u);
+    let n = f2_sub(y, x); let ni = f2_inv(n);
+    assert(n == f4_norm(a));
+    f2_lemma_inv(n);
+    f2_lemma_ok_ops(a0, a0); f2_lemma_ok_ops(a1, a1); f2_lemma_ok_ops(s, u); f2_lemma_ok_ops(y, x); f2_lemma_ok_ops(n, n);
+    let na1 = f2_neg(a1);
+    f2_lemma_ok_ops(a0, ni); f2_lemma_ok_ops(a1, ni); f2_lemma_ok_ops(na1, ni);
+    f4_split(f2_mul(a0, ni), f2_mul(na1, ni));
+    // c0 = a0 (a0 ni) + (a1 (-a1 ni)) u = y ni - x ni = n ni = 1
+    f2_lemma_mul_assoc(a0, a0, ni);
+    f2_lemma_mul_neg(a1, ni);                      // (-a1) ni == -(a1 ni)
+    f2_lemma_mul_neg(a1, f2_mul(a1, ni));          // a1 (-(a1 ni)) == -(a1 (a1 ni))
+    f2_lemma_mul_assoc(a1, a1, ni);                // a1 (a1 ni) == s ni
+    f2_lemma_ok_ops(s, ni);
+    f2_lemma_mul_neg(f2_mul(s, ni), u);            // (-(s ni)) u == -((s ni) u)
+    f2_lemma_mul_assoc(s, ni, u); f2_lemma_mul_comm(ni, u); f2_lemma_mul_assoc(s, u, ni);   // (s ni) u == s (ni u) == s (u ni) == x ni
+    f2_lemma_ok_ops(y, ni); f2_lemma_ok_ops(x, ni);
+    f2_lemma_sub_neg(f2_mul(y, ni), f2_mul(x, ni));
+    f2_lemma_distrib(y, x, ni);
+    // c1 = a0 (-a1 ni) + a1 (a0 ni) = -z + z = 0,  z = a0 (a1 ni)
+    let z = f2_mul(a0, f2_mul(a1, ni));
+    f2_lemma_mul_neg(a0, f2_mul(a1, ni));
+    f2_lemma_mul_assoc(a1, a0, ni); f2_lemma_mul_comm(a1, a0); f2_lemma_mul_assoc(a0, a1, ni);
+    f2_lemma_ok_ops(a0, f2_mul(a1, ni));
+    f2_lemma_add_comm(f2_neg(z), z);
+    f2_lemma_sub_neg(z, z);
+}
+// equal halves
+pub proof fn f4_lemma_ext(a: Seq<int>, b: Seq<int>) requires a.len() == 4, b.len() == 4, f4_lo(a) == f4_lo(b), f4_hi(a) == f4_hi(b) ensures a == b
+{ f4_join(a); f4_join(b); }
+pub proof fn f4_lemma_mul_assoc(a: Seq<int>, b: Seq<int>, c: Seq<int>) requires f4_ok(a), f4_ok(b), f4_ok(c)
+    ensures f4_mul(f4_mul(a, b), c) == f4_mul(a, f4_mul(b, c))
+{
+    let a0 = a[0]; let a1 = a[1]; let a2 = a[2]; let a3 = a[3]; let b0 = b[0]; let b1 = b[1]; let b2 = b[2]; let b3 = b[3]; let c0 = c[0]; let c1 = c[1]; let c2 = c[2]; let c3 = c[3];
+    f4_of_self(a); f4_of_self(b); f4_of_self(c);
+    f4_of_mul(a0, a1, a2, a3, b0, b1, b2, b3);
+    f4_of_mul(a0 * b0 - 2 * (a1 * b1) - 2 * (a2 * b3 + a3 * b2), a0 * b1 + a1 * b0 + a2 * b2 - 2 * (a3 * b3), a0 * b2 - 2 * (a1 * b3) + a2 * b0 - 2 * (a3 * b1), a0 * b3 + a1 * b2 + a2 * b1 + a3 * b0, c0, c1, c2, c3);
+    f4_of_mul(b0, b1, b2, b3, c0, c1, c2, c3);
+    f4_of_mul(a0, a1, a2, a3, b0 * c0 - 2 * (b1 * c1) - 2 * (b2 * c3 + b3 * c2), b0 * c1 + b1 * c0 + b2 * c2 - 2 * (b3 * c3), b0 * c2 - 2 * (b1 * c3) + b2 * c0 - 2 * (b3 * c1), b0 * c3 + b1 * c2 + b2 * c1 + b3 * c0);
+    ring_f4_assoc0(a0, a1, a2, a3, b0, b1, b2, b3, c0, c1, c2, c3); ring_f4_assoc1(a0, a1, a2, a3, b0, b1, b2, b3, c0, c1, c2, c3); ring_f4_assoc2(a0, a1, a2, a3, b0, b1, b2, b3, c0, c1, c2, c3); ring_f4_assoc3(a0, a1, a2, a3, b0, b1, b2, b3, c0, c1, c2, c3);
+}
+#[verifier::external_body]
+pub proof fn ring_f4_assoc0(a0: int, a1: int, a2: int, a3: int, b0: int, b1: int, b2: int, b3: int, c0: int, c1: int, c2: int, c3: int)
+    ensures (a0 * b0 - 2 * (a1 * b1) - 2 * (a2 * b3 + a3 * b2)) * c0 - 2 * ((a0 * b1 + a1 * b0 + a2 * b2 - 2 * (a3 * b3)) * c1) - 2 * ((a0 * b2 - 2 * (a1 * b3) + a2 * b0 - 2 * (a3 * b1)) * c3 + (a0 * b3 + a1 * b2 + a2 * b1 + a3 * b0) * c2) == a0 * (b0 * c0 - 2 * (b1 * c1) - 2 * (b2 * c3 + b3 * c2)) - 2 * (a1 * (b0 * c1 + b1 * c0 + b2 * c2 - 2 * (b3 * c3))) - 2 * (a2 * (b0 * c3 + b1 * c2 + b2 * c1 + b3 * c0) + a3 * (b0 * c2 - 2 * (b1 * c3) + b2 * c0 - 2 * (b3 * c1)))
+{ }
+#[verifier::external_body]
+pub proof fn ring_f4_assoc1(a0: int, a1: int, a2: int, a3: int, b0: int, b1: int, b2: int, b3: int, c0: int, c1: int, c2: int, c3: int)
+    ensures (a0 * b0 - 2 * (a1 * b1) - 2 * (a2 * b3 + a3 * b2)) * c1 + (a0 * b1 + a1 * b0 + a2 * b2 - 2 * (a3 * b3)) * c0 + (a0 * b2 - 2 * (a1 * b3) + a2 * b0 - 2 * (a3 * b1)) * c2 - 2 * ((a0 * b3 + a1 * b2 + a2 * b1 + a3 * b0) * c3) == a0 * (b0 * c1 + b1 * c0 + b2 * c2 - 2 * (b3 * c3)) + a1 * (b0 * c0 - 2 * (b1 * c1) - 2 * (b2 * c3 + b3 * c2)) + a2 * (b0 * c2 - 2 * (b1 * c3) + b2 * c0 - 2 * (b3 * c1)) - 2 * (a3 * (b0 * c3 + b1 * c2 + b2 * c1 + b3 * c0))
+{ }
+#[verifier::external_body]
+pub proof fn ring_f4_assoc2(a0: int, a1: int, a2: int, a3: int, b0: int, b1: int, b2: int, b3: int, c0: int, c1: int, c2: int, c3: int)
+    ensures (a0 * b0 - 2 * (a1 * b1) - 2 * (a2 * b3 + a3 * b2)) * c2 - 2 * ((a0 * b1 + a1 * b0 + a2 * b2 - 2 * (a3 * b3)) * c3) + (a0 * b2 - 2 * (a1 * b3) + a2 * b0 - 2 * (a3 * b1)) * c0 - 2 * ((a0 * b3 + a1 * b2 + a2 * b1 + a3 * b0) * c1) == a0 * (b0 * c2 - 2 * (b1 * c3) + b2 * c0 - 2 * (b3 * c1)) - 2 * (a1 * (b0 * c3 + b1 * c2 + b2 * c1 + b3 * c0)) + a2 * (b0 * c0 - 2 * (b1 * c1) - 2 * (b2 * c3 + b3 * c2)) - 2 * (a3 * (b0 * c1 + b1 * c0 + b2 * c2 - 2 * (b3 * c3)))
+{ }
+#[verifier::external_body]
+pub proof fn ring_f4_assoc3(a0: int, a1: int, a2: int, a3: int, b0: int, b1: int, b2: int, b3: int, c0: int, c1: int, c2: int, c3: int)
+    ensures (a0 * b0 - 2 * (a1 * b1) - 2 * (a2 * b3 + a3 * b2)) * c3 + (a0 * b1 + a1 * b0 + a2 * b2 - 2 * (a3 * b3)) * c2 + (a0 * b2 - 2 * (a1 * b3) + a2 * b0 - 2 * (a3 * b1)) * c1 + (a0 * b3 + a1 * b2 + a2 * b1 + a3 * b0) * c0 == a0 * (b0 * c3 + b1 * c2 + b2 * c1 + b3 * c0) + a1 * (b0 * c2 - 2 * (b1 * c3) + b2 * c0 - 2 * (b3 * c1)) + a2 * (b0 * c1 + b1 * c0 + b2 * c2 - 2 * (b3 * c3)) + a3 * (b0 * c0 - 2 * (b1 * c1) - 2 * (b2 * c3 + b3 * c2))
+{ }
+pub proof fn f4_lemma_distrib(a: Seq<int>, b: Seq<int>, c: Seq<int>) requires f4_ok(a), f4_ok(b), f4_ok(c)
+    ensures f4_mul(f4_add(a, b), c) == f4_add(f4_mul(a, c), f4_mul(b, c)), f4_mul(c, f4_add(a, b)) == f4_add(f4_mul(c, a), f4_mul(c, b)),
+        f4_mul(f4_sub(a, b), c) == f4_sub(f4_mul(a, c), f4_mul(b, c)),
+{
+    let a0 = a[0]; let a1 = a[1]; let a2 = a[2]; let a3 = a[3]; let b0 = b[0]; let b1 = b[1]; let b2 = b[2]; let b3 = b[3]; let c0 = c[0]; let c1 = c[1]; let c2 = c[2]; let c3 = c[3];
+    f4_of_self(a); f4_of_self(b); f4_of_self(c);
+    f4_of_add(a0, a1, a2, a3, b0, b1, b2, b3); f4_of_sub(a0, a1, a2, a3, b0, b1, b2, b3);
+    f4_of_mul(a0 + b0, a1 + b1, a2 + b2, a3 + b3, c0, c1, c2, c3);
+    f4_of_mul(a0 - b0, a1 - b1, a2 - b2, a3 - b3, c0, c1, c2, c3);
+    f4_of_mul(a0, a1, a2, a3, c0, c1, c2, c3);
+    f4_of_mul(b0, b1, b2, b3, c0, c1, c2, c3);
+    f4_of_add(a0 * c0 - 2 * (a1 * c1) - 2 * (a2 * c3 + a3 * c2), a0 * c1 + a1 * c0 + a2 * c2 - 2 * (a3 * c3), a0 * c2 - 2 * (a1 * c3) + a2 * c0 - 2 * (a3 * c1), a0 * c3 + a1 * c2 + a2 * c1 + a3 * c0, b0 * c0 - 2 * (b1 * c1) - 2 * (b2 * c3 + b3 * c2), b0 * c1 + b1 * c0 + b2 * c2 - 2 * (b3 * c3), b0 * c2 - 2 * (b1 * c3) + b2 * c0 - 2 * (b3 * c1), b0 * c3 + b1 * c2 + b2 * c1 + b3 * c0);
+    f4_of_sub(a0 * c0 - 2 * (a1 * c1) - 2 * (a2 * c3 + a3 * c2), a0 * c1 + a1 * c0 + a2 * c2 - 2 * (a3 * c3), a0 * c2 - 2 * (a1 * c3) + a2 * c0 - 2 * (a3 * c1), a0 * c3 + a1 * c2 + a2 * c1 + a3 * c0, b0 * c0 - 2 * (b1 * c1) - 2 * (b2 * c3 + b3 * c2), b0 * c1 + b1 * c0 + b2 * c2 - 2 * (b3 * c3), b0 * c2 - 2 * (b1 * c3) + b2 * c0 - 2 * (b3 * c1), b0 * c3 + b1 * c2 + b2 * c1 + b3 * c0);
+    ring_f4_dist0(a0, a1, a2, a3, b0, b1, b2, b3, c0, c1, c2, c3); ring_f4_dist1(a0, a1, a2, a3, b0, b1, b2, b3, c0, c1, c2, c3); ring_f4_dist2(a0, a1, a2, a3, b0, b1, b2, b3, c0, c1, c2, c3); ring_f4_dist3(a0, a1, a2, a3, b0, b1, b2, b3, c0, c1, c2, c3);
+    ring_f4_dists0(a0, a1, a2, a3, b0, b1, b2, b3, c0, c1, c2, c3); ring_f4_dists1(a0, a1, a2, a3, b0, b1, b2, b3, c0, c1, c2, c3); ring_f4_dists2(a0, a1, a2, a3, b0, b1, b2, b3, c0, c1, c2, c3); ring_f4_dists3(a0, a1, a2, a3, b0, b1, b2, b3, c0, c1, c2, c3);
+    f4_lemma_ok_ops(a, b);
+    f4_lemma_mul_comm(f4_add(a, b), c); f4_lemma_mul_comm(a, c); f4_lemma_mul_comm(b, c);
+}
+#[verifier::external_body]
+pub proof fn ring_f4_dist0(a0: int, a1: int, a2: int, a3: int, b0: int, b1: int, b2: int, b3: int, c0: int, c1: int, c2: int, c3: int)
+    ensures (a0 + b0) * c0 - 2 * ((a1 + b1) * c1) - 2 * ((a2 + b2) * c3 + (a3 + b3) * c2) == (a0 * c0 - 2 * (a1 * c1) - 2 * (a2 * c3 + a3 * c2)) + (b0 * c0 - 2 * (b1 * c1) - 2 * (b2 * c3 + b3 * c2))
+{ }
+#[verifier::external_body]
+pub proof fn ring_f4_dist1(a0: int, a1: int, a2: int, a3: int, b0: int, b1: int, b2: int, b3: int, c0: int, c1: int, c2: int, c3: int)
+    ensures (a0 + b0) * c1 + (a1 + b1) * c0 + (a2 + b2) * c2 - 2 * ((a3 + b3) * c3) == (a0 * c1 + a1 * c0 + a2 * c2 - 2 * (a3 * c3)) + (b0 * c1 + b1 * c0 + b2 * c2 - 2 * (b3 * c3))
+{ }
+#[verifier::external_body]
+pub proof fn ring_f4_dist2(a0: int, a1: int, a2: int, a3: int, b0: int, b1: int, b2: int, b3: int, c0: int, c1: int, c2: int, c3: int)
+    ensures (a0 + b0) * c2 - 2 * ((a1 + b1) * c3) + (a2 + b2) * c0 - 2 * ((a3 + b3) * c1) == (a0 * c2 - 2 * (a1 * c3) + a2 * c0 - 2 * (a3 * c1)) + (b0 * c2 - 2 * (b1 * c3) + b2 * c0 - 2 * (b3 * c1))
+{ }
+#[verifier::external_body]
+pub proof fn ring_f4_dist3(a0: int, a1: int, a2: int, a3: int, b0: int, b1: int, b2: int, b3: int, c0: int, c1: int, c2: int, c3: int)
+    ensures (a0 + b0) * c3 + (a1 + b1) * c2 + (a2 + b2) * c1 + (a3 + b3) * c0 == (a0 * c3 + a1 * c2 + a2 * c1 + a3 * c0) + (b0 * c3 + b1 * c2 + b2 * c1 + b3 * c0)
+{ }
+#[verifier::external_body]
+pub proof fn ring_f4_dists0(a0: int, a1: int, a2: int, a3: int, b0: int, b1: int, b2: int, b3: int, c0: int, c1: int, c2: int, c3: int)
+    ensures (a0 - b0) * c0 - 2 * ((a1 - b1) * c1) - 2 * ((a2 - b2) * c3 + (a3 - b3) * c2) == (a0 * c0 - 2 * (a1 * c1) - 2 * (a2 * c3 + a3 * c2)) - (b0 * c0 - 2 * (b1 * c1) - 2 * (b2 * c3 + b3 * c2))
+{ }
+#[verifier::external_body]
+pub proof fn ring_f4_dists1(a0: int, a1: int, a2: int, a3: int, b0: int, b1: int, b2: int, b3: int, c0: int, c1: int, c2: int, c3: int)
+    ensures (a0 - b0) * c1 + (a1 - b1) * c0 + (a2 - b2) * c2 - 2 * ((a3 - b3) * c3) == (a0 * c1 + a1 * c0 + a2 * c2 - 2 * (a3 * c3)) - (b0 * c1 + b1 * c0 + b2 * c2 - 2 * (b3 * c3))
+{ }
+#[verifier::external_body]
+pub proof fn ring_f4_dists2(a0: int, a1: int, a2: int, a3: int, b0: int, b1: int, b2: int, b3: int, c0: int, c1: int, c2: int, c3: int)
+    ensures (a0 - b0) * c2 - 2 * ((a1 - b1) * c3) + (a2 - b2) * c0 - 2 * ((a3 - b3) * c1) == (a0 * c2 - 2 * (a1 * c3) + a2 * c0 - 2 * (a3 * c1)) - (b0 * c2 - 2 * (b1 * c3) + b2 * c0 - 2 * (b3 * c1))
+{ }
+#[verifier::external_body]
+pub proof fn ring_f4_dists3(a0: int, a1: int, a2: int, a3: int, b0: int, b1: int, b2: int, b3: int, c0: int, c1: int, c2: int, c3: int)
+    ensures (a0 - b0) * c3 + (a1 - b1) * c2 + (a2 - b2) * c1 + (a3 - b3) * c0 == (a0 * c3 + a1 * c2 + a2 * c1 + a3 * c0) - (b0 * c3 + b1 * c2 + b2 * c1 + b3 * c0)
+{ }
 //@section code gm-sm9/src/u256.rs
 type U256 = [u64; 4];
 //@section code gm-sm9/src/fields/fp.rs
@@ -316,6 +595,46 @@ proof fn f4_w(a: Fp4) ensures f4_lo(a.val()) == a.c0.val(), f4_hi(a.val()) == a.
 {
     f2_range(val4(a.c0.c0@) * RINV_P9()); f2_range(val4(a.c0.c1@) * RINV_P9()); f2_range(val4(a.c1.c0@) * RINV_P9()); f2_range(val4(a.c1.c1@) * RINV_P9());
     f4_split(a.c0.val(), a.c1.val());
+}
+// the Montgomery decoding is injective on canonical limbs, so PartialEq::eq (limb equality of the four coefficients) is equality of
+// values for ok operands
+proof fn f4_fe_inj(a: Fp, b: Fp) requires canon9(a@), canon9(b@), fe9(a@) == fe9(b@) ensures a@ == b@
+{
+    lemma_params9(); lemma_val4_bounds(a@); lemma_val4_bounds(b@);
+    let x = val4(a@); let y = val4(b@); let u = r256() * RINV_P9();
+    f2_cong_mul(x * RINV_P9(), y * RINV_P9(), r256());
+    assert(x * RINV_P9() * r256() == x * u) by(nonlinear_arith) requires u == r256() * RINV_P9();
+    assert(y * RINV_P9() * r256() == y * u) by(nonlinear_arith) requires u == r256() * RINV_P9();
+    f2_unit(x, u); f2_unit(y, u); f2_small(x); f2_small(y);
+    lemma_val4_inj(a@, b@);
+}
+proof fn f4_eq_val(a: Fp4, b: Fp4) requires a.ok(), b.ok() ensures a.eq_spec(&b) == (a.val() == b.val())
+{
+    f4_w(a); f4_w(b);
+    f4_lemma_mk_inj(a.c0.val(), a.c1.val(), b.c0.val(), b.c1.val());
+    if a.val() == b.val() {
+        assert(a.c0.val()[0] == b.c0.val()[0] && a.c0.val()[1] == b.c0.val()[1] && a.c1.val()[0] == b.c1.val()[0] && a.c1.val()[1] == b.c1.val()[1]);
+        f4_fe_inj(a.c0.c0, b.c0.c0); f4_fe_inj(a.c0.c1, b.c0.c1); f4_fe_inj(a.c1.c0, b.c1.c0); f4_fe_inj(a.c1.c1, b.c1.c1);
+    }
+}
+// the limbs written out in mont_one are 1 in Montgomery form (the constant SM9_MODP_MONT_ONE of lib.rs)
+spec fn f4_is_mont_one(x: [u64; 4]) -> bool { x@[0] == 0x1a9064d81caeba83 && x@[1] == 0xde0d6cb4e5851124 && x@[2] == 0x29fc54b00a7138ba && x@[3] == 0x49bffffffd5c590e }
+spec fn f4_is_limbs_zero(x: [u64; 4]) -> bool { x@[0] == 0 && x@[1] == 0 && x@[2] == 0 && x@[3] == 0 }
+spec fn f4_lit_p(x: [u64; 4]) -> bool { (f4_is_mont_one(x) ==> canon9(x@) && fe9(x@) == 1) && (f4_is_limbs_zero(x) ==> canon9(x@) && fe9(x@) == 0) }
+proof fn f4_lit() ensures forall|x: [u64; 4]| #![trigger x@] f4_lit_p(x)
+{
+    assert forall|x: [u64; 4]| #![trigger x@] f4_lit_p(x) by {
+        if f4_is_mont_one(x) {
+            let m = seq![0x1a9064d81caeba83u64, 0xde0d6cb4e5851124u64, 0x29fc54b00a7138bau64, 0x49bffffffd5c590eu64];
+            assert(x@ =~= m);
+            assert(canon9(m) && fe9(m) == 1) by(compute);
+        }
+        if f4_is_limbs_zero(x) {
+            let z = seq![0u64, 0u64, 0u64, 0u64];
+            assert(x@ =~= z);
+            assert(canon9(z) && fe9(z) == 0) by(compute);
+        }
+    }
 }
 //@section code gm-sm9/src/fields/fp4.rs
 impl Fp4 {
@@ -377,6 +696,7 @@ impl FieldElement for Fp4 {
     }
 
     fn is_zero(&self) -> bool {
+        proof { f4_w(*self); f4_lemma_mk_inj(self.c0.val(), self.c1.val(), f2_zero(), f2_zero()); }
         self.c0.is_zero() && self.c1.is_zero()
     }
 
@@ -491,6 +811,7 @@ impl FieldElement for Fp4 {
         r0 = r0.fp_neg();
 
         r1 = self.c1.fp_mul(&k);
+        proof { f4_lemma_inv_code(self.c0.val(), self.c1.val()); }
 
         Self { c0: r0, c1: r1 }
     }
@@ -508,6 +829,7 @@ impl Fp4 {
     fn mont_one() -> (r: Self)
         ensures r.ok(), r.val() == f4_one()
     {
+        proof { f4_lit(); }
         Fp4 {
             c0: Fp2 {
                 c0: [
@@ -538,6 +860,7 @@ impl Fp4 {
         r1 = self.c0.fp_mul(&b.c0);
         t = self.c1.fp_mul_u(&b.c1);
         r1 = r1.fp_add(&t);
+        proof { f4_lemma_mul_mul_v(self.val(), b.val()); }
 
         Self { c0: r0, c1: r1 }
     }
@@ -586,6 +909,7 @@ impl Fp4 {
         r1 = self.c0.fp_sqr();
         t = self.c1.sqr_u();
         r1 = r1.fp_add(&t);
+        proof { f4_lemma_mul_mul_v(self.val(), self.val()); f2_lemma_mul_comm(self.c1.val(), self.c0.val()); }
 
         Self { c0: r0, c1: r1 }
     }
